@@ -73,7 +73,7 @@ def build(rng):
     rows = gen_f(rng, n)
     f = sig_obj(rows, n)
     frows = c12.canon(f)
-    kind = rng.choice(['none', 'none', 'box', 'halfspace', 'ball', 'lifted'])
+    kind = rng.choice(['none', 'none', 'box', 'halfspace', 'ball', 'lifted', 'eq_box', 'mixed', 'expcone'])
     X, _ = sagecorr.make_domain(rng, n, kind)
     ell = rng.choice([0, 0, 1, 1, 2])
     ms = None
@@ -97,8 +97,15 @@ def run(ctx):
         with warnings.catch_warnings():
             warnings.simplefilter('ignore')
             try:
-                pp = ss.sig_primal(f, ell, X, msnp)
-                dp = ss.sig_dual(f, ell, X, msnp)
+                if k % 2 == 0:      # through the public entry point, every option passed explicitly
+                    kw = {'ell': ell} if msnp is None else {'ell': ell, 'mod_supp': msnp}
+                    pp = ss.sig_relaxation(f, X, 'primal', **kw)
+                    dp = ss.sig_relaxation(f, X, 'dual', **kw)
+                    ctx.count('entry', 'sig_relaxation')
+                else:
+                    pp = ss.sig_primal(f, ell, X, msnp)
+                    dp = ss.sig_dual(f, ell, X, msnp)
+                    ctx.count('entry', 'sig_primal/sig_dual')
             except RuntimeError as e:
                 ctx.count('builder_error', str(e)[:40])
                 continue
@@ -162,15 +169,9 @@ def oracle_values(rng, f, n, kind, X, pp, dp):
         ds = dp.solve(verbose=False)
     ub = math.inf
     for _ in range(200):
-        x, w = sagecorr.sample_domain_point(rng, n, kind if kind in ('none', 'box', 'ball', 'lifted') else 'none')
+        x, w = sagecorr.sample_domain_point(rng, n, kind, X)
         if x is None:
             break
-        if kind == 'halfspace' and not X.check_membership(np.array(x), 0) if False else False:
-            continue
-        if kind == 'halfspace':
-            A, b = X.A, X.b
-            if float((A @ np.array(x) + b)[0]) < 0:
-                continue
         ub = min(ub, float(f(np.array(x))))
     for name, (st, val) in (('primal', ps), ('dual', ds)):
         if st == 'solved' and math.isfinite(val) and math.isfinite(ub) and val > ub + 1e-4 * (1 + abs(ub)):
